@@ -3,6 +3,7 @@ import UberjobModel.Model.Kahn
 import UberjobModel.Model.FileStoreDrv
 import UberjobModel.Model.TextCodecDrv
 import UberjobModel.Model.JsonDrv
+import UberjobModel.Model.GreedyDrv
 import UberjobModel.Model.TimeDrv
 import UberjobModel.Model.RefsDrv
 import UberjobModel.Model.HeapDrv
@@ -208,6 +209,7 @@ def step (c : Ctx) (line : String) : Ctx × String :=
   | "fs" :: _ => (c, Uberjob.FileStore.drv line)
   | "text" :: _ => (c, Uberjob.TextCodec.drv line)
   | "json" :: _ => (c, Uberjob.Json.drv line)
+  | "greedy" :: _ => (c, Uberjob.Greedy.drv line)
   | "c18" :: _ => (c, Uberjob.Time.drv line)
   | "c16" :: _ => (c, Uberjob.Refs.drv line)
   | "c13plan" :: _ | "c13reg" :: _ | "c13run" :: _ => (c, Uberjob.Heap.drv line)
